@@ -706,6 +706,16 @@ func (c *compiler) floatsOperator(l float64, r float64, op string) (interface{},
 }
 
 func (c *compiler) stringsOperator(l string, r interface{}, op string) (interface{}, error) {
+	// only concatenation (and the pattern of ~=) takes the printed form of a
+	// non-string right operand; comparing a string with another type is an error
+	switch r.(type) {
+	case string, template.HTML:
+	default:
+		if op != "+" && op != "~=" {
+			return nil, fmt.Errorf("unable to operate (%s) on %T and %T ", op, l, r)
+		}
+	}
+
 	rr := fmt.Sprint(r)
 
 	switch op {
